@@ -60,7 +60,7 @@ def run(ctx):
     with ThreadPoolExecutor(max_workers=3) as ex:
         # subscribers on the production connection path only (no file added to the notifier package)
         f3 = ex.submit(ctx.go_harness, "cmd/keymasterd", "TestVerif_C20S",
-                       ["kmd/common.go", "kmd/creds.go", "kmd/c20s.go", os.path.join(ctx.work, "gen", "mux_gen.go")])
+                       ["kmd/common.go", "kmd/creds.go", "kmd/c20s.go", "kmd/c20k.go", os.path.join(ctx.work, "gen", "mux_gen.go")])
         f1 = ex.submit(ctx.go_harness, "cmd/keymasterd", "TestVerif_C20",
                        ["kmd/common.go", "kmd/creds.go", "kmd/consts.go", "kmd/c20.go", os.path.join(ctx.work, "gen", "mux_gen.go")],
                        extra_overlay={os.path.join(core.REPO, "keymasterd", "eventnotifier", "zz_verif_export.go"): export})
@@ -82,6 +82,9 @@ def run(ctx):
     if s_result is not None:
         jobs.append(("CasesC20S.v", "c20s_mismatches", "CasesC20S.idx",
                      "subscribers on the production connection path with every lag 0..15 and two that stop reading: no operation blocks, queue of a reader never full, stream handed to each reader = the published sequence, to a stalled one = what the model's queue accepted (%s publishes and reads)", "c20s_ncases"))
+    if s_result is not None and os.path.exists(os.path.join(ctx.work, "CasesC20K.v")):
+        jobs.append(("CasesC20K.v", "c20k_mismatches", "CasesC20K.idx",
+                     "subscriber churn on the production connection path (every order of connects and disconnects up to six operations, longer random ones, something published after each): the stream handed to every connection = the model's table keyed by the connection's own channel (%s connects, disconnects, publishes and reads)", "c20k_ncases"))
     if rec_result is not None:
         jobs.append(("CasesC20L.v", "c20l_mismatches", "CasesC20L.idx",
                      "recorder event loop: every history answer and every saved file = model (%s scenarios)", "c20l_ncases"))
@@ -102,6 +105,9 @@ def run(ctx):
                 corr(ctx, res, "c20u_mismatches", "recorder start-up next to leftover files and on a damaged file: what New() comes back with = the model's start-up, which looks at the history file's own name only (%s directories)" % res.get("c20u_ncases", "?"), "CasesC20U.idx")
                 violating(ctx, res, "c20u_violating", "startup-leftover", "CasesC20U.idx",
                           "property predicate evaluated in Coq on the observed start-up: a start on a good history file comes back with that history whatever lies next to it")
+            if j[1] == "c20k_mismatches":
+                violating(ctx, res, "c20k_violating", "churn", j[2],
+                          "property predicate evaluated in Coq on the observed streams: every connection was handed exactly the events published while it was connected (between its connect and its disconnect), in order")
             if j[1] == "c20s_mismatches":
                 violating(ctx, res, "c20s_violating", "stream", j[2],
                           "property predicate evaluated in Coq on the observed streams: every operation returned, every healthy subscriber was handed exactly the published sequence, a stalled one a subsequence of it")
